@@ -6,6 +6,9 @@ tier=${1:-quick}
 bad=0
 for d in /verif/seeded/*/; do
   id=$(basename $d)
+  if python3 -c "import json,sys;sys.exit(0 if json.load(open('$d/meta.json')).get('neutralised') else 1)"; then
+    echo "$id neutralised (kept for the record; see meta.json)"; continue
+  fi
   checks=$(python3 -c "import json;m=json.load(open('$d/meta.json'));print(','.join(m.get('caught_by') or [m['property']]))")
   out=$(python3 /verif/tools/seedtest.py $d --checks $checks --tier $tier 2>&1 | python3 -c "
 import sys,json
